@@ -722,6 +722,124 @@ func runC19(w *World, r *Report) {
 		r.Check(okLoop, "C19.surplus-closed", "updateValues visits every sender of every target", uv.Pos(), "the per-sender loop cannot be skipped for a target", "for some targets (e.g. nodes without data predecessors) the senders' values are never looked at: their stream copies stay unclosed")
 	}
 
+	// ---- what is sent to a skipped node (through a data-only edge, or an edge next to a branch that did not pick it) is
+	// given up properly: reportValues closes the stream copies it is not going to keep
+	r.Rule("C19.skipped-drops-closed", "dagChannel.reportValues: the early return taken for a skipped channel closes the stream values it was handed", 1)
+	{
+		rv := w.Fn("compose", "dagChannel.reportValues")
+		fSkipped := skipFlagOf(w)
+		n := 0
+		instrs(rv, func(in ssa.Instruction) {
+			iff, ok := in.(*ssa.If)
+			if !ok || !isLoadOfField(iff.Cond, fSkipped) {
+				return
+			}
+			n++
+			arm := iff.Block().Succs[0]
+			leak, wit := pathFromBlock(pathQuery{fn: rv, goal: isReturn, avoid: func(x ssa.Instruction) bool { return invokeName(x) == "close" }}, arm)
+			// a close loop has a zero-iteration path too: accept when the arm ranges over the parameter and closes inside
+			rangesIns := false
+			for _, b := range rv.Blocks {
+				if !(b == arm || arm.Dominates(b)) {
+					continue
+				}
+				for _, x := range b.Instrs {
+					if rg, ok := x.(*ssa.Range); ok {
+						if _, isP := rg.X.(*ssa.Parameter); isP {
+							rangesIns = true
+						}
+					}
+				}
+			}
+			closes := false
+			for _, b := range rv.Blocks {
+				if b == arm || arm.Dominates(b) {
+					for _, x := range b.Instrs {
+						if invokeName(x) == "close" {
+							closes = true
+						}
+					}
+				}
+			}
+			r.Check(rangesIns && closes, "C19.skipped-drops-closed", "reportValues: skipped arm closes what it drops", iff.Cond.Pos(), "ranges over the reported values and closes the stream readers among them", "a skipped channel forgets the values it is handed without closing them ("+map[bool]string{true: wit, false: "no close on the skipped arm"}[leak]+"): a stream copy made for a node that a branch skipped (data-only edge into a branch target; edge next to a branch) is never closed, so after an early close by the caller the fan-out's source stays open and its producer stays blocked on Send")
+		})
+		if n == 0 {
+			r.Fail("C19.skipped-drops-closed", "reportValues: skipped arm", rv.Pos(), "no test of the skip flag found in reportValues")
+		}
+	}
+
+	// ---- the stream callback handlers the module itself ships (react's message future, the callback templates) give up
+	// the copy they are handed on every path, like any handler must
+	r.Rule("C19.bundled-handlers-close", "every stream callback handler defined in the module (func(ctx, *RunInfo, *StreamReader[…]) context.Context) closes its copy or hands it on, on every return path", 4)
+	{
+		n := 0
+		for _, fn := range w.RepoFuncs("flow", "utils", "callbacks", "components") {
+			sig := fn.Signature
+			if sig.Params().Len() != 3 || sig.Results().Len() != 1 || len(fn.Blocks) == 0 {
+				continue
+			}
+			if nm := namedOf(sig.Results().At(0).Type()); nm == nil || nm.Obj().Name() != "Context" {
+				continue
+			}
+			pt, ok := sig.Params().At(2).Type().(*types.Pointer)
+			if !ok {
+				continue
+			}
+			if nm := namedOf(pt.Elem()); nm == nil || nm.Obj().Name() != "StreamReader" {
+				continue
+			}
+			if ri, ok := sig.Params().At(1).Type().(*types.Pointer); !ok || namedOf(ri.Elem()) == nil || namedOf(ri.Elem()).Obj().Name() != "RunInfo" {
+				continue
+			}
+			sp := fn.Params[len(fn.Params)-1]
+			n++
+			consumes := func(in ssa.Instruction) bool {
+				ci, ok := in.(ssa.CallInstruction)
+				if !ok {
+					return false
+				}
+				if ci.Common().IsInvoke() && ci.Common().Value == ssa.Value(sp) {
+					return true
+				}
+				for _, a := range ci.Common().Args {
+					if a == ssa.Value(sp) {
+						return true
+					}
+				}
+				return false
+			}
+			construct := "stream callback handler " + w.fname(origin(fn)) + " gives up its copy"
+			if why, ok := bundledHandlerExceptions[w.fname(origin(fn))]; ok {
+				r.Except("C19.bundled-handlers-close", construct, fn.Pos(), why)
+				continue
+			}
+			// defensive `param == nil` tests: the true edge is not a path of a real call (the callback manager passes a
+			// non-nil RunInfo and a non-nil copy)
+			nilEdge := func(from, to *ssa.BasicBlock) bool {
+				if len(from.Instrs) == 0 {
+					return false
+				}
+				iff, ok := from.Instrs[len(from.Instrs)-1].(*ssa.If)
+				if !ok {
+					return false
+				}
+				op, x, y, ok := asCmp(iff.Cond)
+				if !ok || !isNilConst(y) {
+					return false
+				}
+				if _, isP := x.(*ssa.Parameter); !isP {
+					return false
+				}
+				return (op == token.EQL && from.Succs[0] == to) || (op == token.NEQ && from.Succs[1] == to)
+			}
+			leak, wit := pathQuery{fn: fn, goal: isReturn, avoid: consumes, avoidEdge: nilEdge}.exists()
+			r.Check(!leak, "C19.bundled-handlers-close", construct, fn.Pos(), "Close / hand-over before every return", "the handler returns without closing (or passing on) the stream copy it was given ("+wit+"): the copy keeps the fan-out's source open — with this handler installed, a caller that closes the run's output early leaves the producer (chat model, tool) blocked on Send for ever")
+		}
+		if n < 4 {
+			r.Fail("C19.bundled-handlers-close", "stream callback handlers in the module", w.Fn("compose", "NewStreamGraphBranch").Pos(), fmt.Sprintf("%d handler-shaped functions found (floor 4)", n))
+		}
+	}
+
 	// ---- a node that is sent a stream copy is never marked skipped (a skipped channel drops what it receives unread)
 	r.Rule("C19.selected-never-skipped", "targets selected by any branch are removed from the skipped set after all branches were evaluated", 1)
 	branchPruneCheck(w, r, "C19.selected-never-skipped")
@@ -1251,4 +1369,9 @@ func streamBranchConditionsClose(w *World, r *Report, rule string) int {
 		})
 	}
 	return n
+}
+
+var bundledHandlerExceptions = map[string]string{
+	"(*utils/callbacks.handlerTemplate).OnStartWithStreamInput": "the `default: return ctx` arm is for components the template has no handler for; handlerTemplate.Needed answers false for them, and the callback manager neither copies the stream for nor calls a handler whose Needed is false (C10.stream-copies counts only needed handlers)",
+	"(*utils/callbacks.handlerTemplate).OnEndWithStreamOutput":  "same: the default arm is unreachable behind handlerTemplate.Needed",
 }
